@@ -84,6 +84,7 @@ type Step struct {
 	Exists bool     `json:"exists"`
 	Fault  string   `json:"fault"`
 	D      int      `json:"d"`
+	N      int      `json:"n"`
 }
 
 type Case struct {
@@ -342,6 +343,10 @@ func (w *world) runCase(idx int, c Case) error {
 			}
 		case "Advance":
 			w.advance(s.D)
+		case "Preset":
+			if err := w.preset(ctx, s.N); err != nil {
+				return err
+			}
 		default:
 			return fmt.Errorf("unknown op %q", s.Op)
 		}
@@ -394,6 +399,63 @@ func resOf(err error) string {
 func (w *world) advance(d int) {
 	w.offset += time.Duration(d) * Unit
 	w.tr.Emit(map[string]any{"t": "Advance", "d": d})
+}
+
+// sat saturates a number of seconds so that it stays inside TLC's 32-bit integers.
+func sat(d time.Duration) int {
+	const lim = 1_000_000_000
+	v := int64(d / time.Second)
+	if v > lim {
+		return lim
+	}
+	if v < -lim {
+		return -lim
+	}
+	return int(v)
+}
+
+// preset simulates a long outage: the attempts column of every idle pending row
+// (not dead-lettered, not claimed) of this case's outbox is raised to n, directly
+// in the table. The next claim makes it n+1 and the backoff of that attempt number
+// is what the dispatcher computes when the publish fails.
+func (w *world) preset(ctx context.Context, n int) error {
+	ids := []int{}
+	err := database.WithTx(ctx, w.st.db, &sql.TxOptions{ReadOnly: false}, func(ctx context.Context, tx database.Tx) error {
+		rs, err := tx.SqlTx().QueryContext(ctx, "SELECT id FROM notification_outbox_entries WHERE outbox_id = $1 AND dead_lettered_at IS NULL AND claim_owner IS NULL ORDER BY id", w.outbox)
+		if err != nil {
+			return err
+		}
+		for rs.Next() {
+			var id string
+			if err := rs.Scan(&id); err != nil {
+				rs.Close()
+				return err
+			}
+			uid, perr := ulid.Parse(id)
+			if perr != nil {
+				rs.Close()
+				return perr
+			}
+			ids = append(ids, w.modelID(&uid))
+		}
+		rs.Close()
+		if err := rs.Err(); err != nil {
+			return err
+		}
+		_, err = tx.SqlTx().ExecContext(ctx, "UPDATE notification_outbox_entries SET attempts = $1 WHERE outbox_id = $2 AND dead_lettered_at IS NULL AND claim_owner IS NULL AND attempts < $1", n, w.outbox)
+		return err
+	})
+	if err != nil {
+		return fmt.Errorf("preset: %w", err)
+	}
+	sort.Ints(ids)
+	w.tr.Emit(map[string]any{"t": "Preset", "n": n, "ids": ids})
+	rows, err := w.rows()
+	if err != nil {
+		return err
+	}
+	w.tr.Emit(map[string]any{"t": "OutboxRows", "rows": rows})
+	return nil
 }
 
 // dispatch runs one pass of the real delivery loop on this goroutine.
@@ -458,10 +520,10 @@ func (w *world) rows() ([]map[string]any, error) {
 			row := map[string]any{
 				"id": w.modelID(&uid), "rule": w.ruleOfARN(arn), "ev": evOf(ev), "pev": evOf("s3:" + pev), "key": w.symKey(pkey),
 				"attempts": attempts, "dead": dead.Valid, "claimed": owner.Valid,
-				"due": int(next.Sub(vnow) / time.Second), "until": 0,
+				"due": sat(next.Sub(vnow)), "until": 0,
 			}
 			if until.Valid {
-				row["until"] = int(until.Time.Sub(vnow) / time.Second)
+				row["until"] = sat(until.Time.Sub(vnow))
 			}
 			out = append(out, row)
 		}
